@@ -96,6 +96,8 @@ impl Clone for Coin {
 }
 impl Coin {
     #[verifier::external_body]
+    pub fn to_string(&self) -> (r: String) { unimplemented!() }
+    #[verifier::external_body]
     pub fn new<D: StrLike>(amount: u128, denom: D) -> (r: Coin) ensures r.amount.0 == amount, r.denom@ == denom.s() { unimplemented!() }
 }
 #[verifier::external_body]
